@@ -419,11 +419,47 @@ var c11CycleWs = hx.Define("c11.cycle-values-exact", func(c *c11CycleWsCase, s *
 	return nil
 })
 
+// break and continue act on the innermost enclosing loop, whatever blocks stand between them and it
+
+type c11JumpCase struct {
+	Tpl  string `json:"template"`
+	Want string `json:"want"`
+}
+
+var c11Jump = hx.Define("c11.jump-through-blocks", func(c *c11JumpCase, s *hx.Sub) *hx.Violation {
+	o := hx.Render(c.Tpl, map[string]any{"a": []any{1, 2, 3, 4}})
+	if o.Panic != nil {
+		return hx.V("panic@"+o.Panic.Site, "%q: %v", c.Tpl, o.Panic)
+	}
+	if !o.OK() || o.Out != c.Want {
+		return hx.V("c11:jump-through-block", "%q with a = [1, 2, 3, 4] rendered %v, expected %q: break ends, continue skips to the next iteration of, the innermost enclosing loop", c.Tpl, o, c.Want)
+	}
+	s.NT()
+	return nil
+})
+
 func TestC11(t *testing.T) {
 	col := hx.NewCollector("C11")
 	defer col.Finish()
 	col.Corpus()
 	env := col.Env
+
+	jp := c11Jump.On(col, "exhaustive over a list: break and continue inside capture, if, unless, case and nested combinations of them within for and tablerow loops, and an inner loop's jump that must not reach the outer loop. Oracle: fixed expected outputs. Distinct by construction", true)
+	for i, c := range []c11JumpCase{
+		{"{% for i in a %}{% capture c %}{% if i == 2 %}{% break %}{% endif %}{% endcapture %}{{ i }}{% endfor %}", "1"},
+		{"{% for i in a %}{% capture c %}{% if i == 2 %}{% continue %}{% endif %}{% endcapture %}{{ i }}{% endfor %}", "134"},
+		{"{% for i in a %}{% capture c %}x{% break %}{% endcapture %}{{ i }}{% endfor %}|", "|"},
+		{"{% for i in a %}{% unless i < 3 %}{% case i %}{% when 3 %}{% break %}{% endcase %}{% endunless %}{{ i }}{% endfor %}", "12"},
+		{"{% for i in a %}{% case i %}{% when 2 %}{% continue %}{% else %}{{ i }}{% endcase %}{% endfor %}", "134"},
+		{"{% for i in a %}{% for j in a %}{% capture c %}{% if j == 2 %}{% break %}{% endif %}{% endcapture %}{{ j }}{% endfor %}{{ i }};{% endfor %}", "11;12;13;14;"},
+		{"{% tablerow i in a %}{% capture c %}{% if i == 3 %}{% break %}{% endif %}{% endcapture %}{{ i }}{% endtablerow %}", "<tr class=\"row1\"><td class=\"col1\">1</td><td class=\"col2\">2</td><td class=\"col3\"></td></tr>"},
+		{"{% for i in a %}{% capture c %}{% for j in a %}{% break %}{% endfor %}{% endcapture %}{{ i }}{% endfor %}", "1234"},
+	} {
+		if env.Mine(i) {
+			c := c
+			jp.Run(&c)
+		}
+	}
 
 	cw := c11CycleWs.On(col, "exhaustive over a list: cycle values that begin or end with spaces or newlines x n in 1..4 x {hyphen on the end tag after the cycle, on the for tag before it, on assign tags on both sides, on tablerow tags, on objects on both sides}; oracle: the values, exactly, round-robin. Distinct by construction", true)
 	{
